@@ -131,6 +131,24 @@ class Outer:
         pass
 
 
+ACTIVE = [None]  # the serde object whose serialize() is running (set by evaluate)
+
+
+class Reentrant(Obj):
+    """A picklable object whose __reduce__ stores something else through the very serde that is pickling it
+    (a lazily computed attribute behind a cache, say): serialize() is entered again before it has returned."""
+
+    def __reduce__(self):
+        s = ACTIVE[0]
+        if s is not None:
+            ACTIVE[0] = None
+            try:
+                s.serialize(b"nested", ["inner", 1, b"x" * 50])
+            finally:
+                ACTIVE[0] = s
+        return (Reentrant, (), dict(vars(self)))
+
+
 SUBCLASSES = {c.__name__: c for c in (MyInt, MyStr, MyBytes, MyFloat, MyList, MyTuple, MyDict)}
 SUBCLASSES.update({"Outer.NInt": Outer.NInt, "Outer.NList": Outer.NList})
 
@@ -221,6 +239,8 @@ def build(spec):
         return {build(k): build(v) for k, v in spec[1]}
     if t == "obj":
         return Obj(**{name: build(s) for name, s in spec[1]})
+    if t == "reent":
+        return Reentrant(tag=spec[1], items=[1, b"two"])
     if t == "cyc":  # object graphs with back-references (pickle's memo must handle them)
         kind = spec[1]
         if kind == "list-self":
@@ -281,6 +301,8 @@ def show_spec(spec, depth=0):
         return "Obj(" + ",".join(f"{n}={show_spec(s)}" for n, s in spec[1]) + ")"
     if t == "cyc":
         return f"<{spec[1]} object graph>"
+    if t == "reent":
+        return f"<object {spec[1]!r} whose __reduce__ serializes another value through the same serde>"
     return repr(spec)
 
 
@@ -354,6 +376,7 @@ def leaves():
           ["point", ["i", "lit", "1"], ["b", "a", 1]],
           ["sub", "Outer.NInt", ["i", "lit", "5"]], ["sub", "Outer.NList", ["list", [["i", "lit", "1"]]]]]
     L += [["cyc", "list-self"], ["cyc", "dict-self"], ["cyc", "tree-parent"], ["cyc", "shared"]]
+    L += [["reent", "r"]]
     # lists whose pickle straddles each threshold, for every protocol (stdlib pickle as ruler)
     seen = set()
     for p in PROTOCOLS:
@@ -656,15 +679,18 @@ def evaluate(subj, spec, value, mark):
         subj.codec.calls.clear()
     if subj.rec is not None:
         subj.rec.out = None
+    ACTIVE[0] = subj.obj
     try:
         res = subj.obj.serialize(KEY, value)
     except Exception as e:  # noqa
+        ACTIVE[0] = None
         inner = ""
         if subj.rec is not None and subj.rec.out is not None:
             inner = f" (inner serializer had produced {short(subj.rec.out[0], 40)})"
         problems.append(("serialize-raises", type(e).__name__,
                          f"{lab}.serialize(b'k', {vs}) raised {type(e).__name__}: {str(e)[:100]}{inner}"))
         return problems, (subj.cfg, top, "serialize-raises", type(e).__name__)
+    ACTIVE[0] = None
     if not (isinstance(res, tuple) and len(res) == 2):
         problems.append(("serialize-shape", tname(res), f"{lab}.serialize(b'k', {vs}) returned {short(res)}, "
                          "not a (value, flags) pair"))
